@@ -87,16 +87,23 @@ def judgeRead (wo : Nat) (pol : Policy) (mark : Option (List Nat)) (enc : UtfTyp
         | some _ => .ok
         | none => if swallow then .known "utf8-declared-tails-swallowed" else .bad "decoded text is not scalars+marks of the stream"
 
-/-- judge `utf.write`: bytes must be BOM? ++ concatenation of the standard encodings of the written texts -/
-def judgeWrite (t : UtfType) (addBom : Bool) (wi : Nat) (strs : List (List Nat)) (bytes : List Nat) : Verdict :=
-  let okAll := strs.all fun s => !hasBad (segment wi s)
-  if !okAll then .ok   -- ill-formed source text: covered by C12, not by the writer statement
+/-- judge `utf.write`: every well-formed text must be accepted, a text whose `Write` reported an error must leave NOTHING in the
+    stream, and the bytes must be BOM? ++ concatenation of the standard encodings of the accepted texts. (An ill-formed text that
+    is accepted under the Skip policy is written with error marks: its bytes are C12's business, such a line is not judged.) -/
+def judgeWrite (t : UtfType) (addBom : Bool) (wi : Nat) (strs : List (List Nat)) (codes : List Char) (bytes : List Nat) : Verdict :=
+  if codes.length ≠ strs.length then .bad "one result code per Write expected"
   else
-    let w := t.width
-    let body := strs.flatMap fun s =>
-      let us := encs w (scalarsOf (segment wi s))
-      if t.isBE then bytesBE w us else bytesLE w us
-    let expected := (if addBom then specBom t else []) ++ body
-    if bytes = expected then .ok else .bad "bytes written differ from BOM ++ standard encoding"
+    let parts := strs.zip codes
+    if parts.any (fun (s, c) => !hasBad (segment wi s) && c != 's') then .bad "a well-formed text was rejected by Write"
+    else if parts.any (fun (s, c) => hasBad (segment wi s) && c == 's') then .ok
+    else
+      let w := t.width
+      let body := parts.flatMap fun (s, c) =>
+        if c == 's' then
+          let us := encs w (scalarsOf (segment wi s))
+          if t.isBE then bytesBE w us else bytesLE w us
+        else []
+      let expected := (if addBom then specBom t else []) ++ body
+      if bytes = expected then .ok else .bad "bytes written differ from BOM ++ standard encoding of the accepted texts"
 
 end BSVerif.Utf.StreamOracle
